@@ -699,3 +699,7 @@ func NextDFS(choices, counts []int) ([]int, bool) {
 	}
 	return nil, false
 }
+
+// NewIdleSched is a scheduler without threads: every call passes through unscheduled
+// (used for the "previous process" that warms the cache during scenario setup).
+func NewIdleSched() *ConcSched { return newConcSched(0) }
